@@ -22,7 +22,27 @@ def scripts():
     oneline = Prog(Asg("a", N(1)), Asg("b", N(2)))
     handled = Prog(Asg("a", N(1)), E(Bin("except__", Code(Asg("b", Bin("select", Arr(N(1)), N(7))), Asg("b2", N(1))), Code(Asg("h", N(2))))), Asg("c", N(3)))
     return [("good1", good1, [1, 2], False), ("nested", nested, [1, 2, 3], False), ("bad1", bad1, [0, 1], True),
-            ("loop", loop, [0, 2, 3], False), ("oneline", oneline, [], False), ("handled", handled, [0, 1, 2, 3], False)]
+            ("loop", loop, [0, 2, 3], False), ("oneline", oneline, [], False), ("handled", handled, [0, 1, 2, 3], False)] + unwinding_scripts()
+
+
+def unwinding_scripts():
+    """scripts whose inner scopes are left by ONE instruction that unwinds several scopes (breakOut to a name 2-3 levels up, also from an
+    if-then body; throw caught 2-3 scopes out), with a marker after every scope and an unrelated call of the same depth behind; controls:
+    one-level breakOut, exitWith, running to the end"""
+    dl = lambda n: E(Un("diag_log", N(n)))
+    call = lambda *ss: E(Un("call", Code(*ss)))
+    bo3 = Prog(dl(1), call(E(Un("scopeName", S("s1"))), dl(2), call(dl(3), call(dl(4), E(Un("breakOut", S("s1"))), dl(5)), dl(6)), dl(7)),
+               dl(8), call(dl(9), call(dl(10), call(dl(11)))), dl(12))
+    bo2 = Prog(dl(1), call(dl(2), call(E(Un("scopeName", S("m"))), dl(3), call(dl(4), E(Un("breakOut", S("m"))), dl(5)), dl(6)), dl(7)), dl(8), call(dl(9), call(dl(10))), dl(11))
+    boif = Prog(dl(1), call(E(Un("scopeName", S("s"))), call(dl(2), E(Bin("then", Un("if", B(True)), Code(dl(3), E(Un("breakOut", S("s"))), dl(4)))), dl(5)), dl(6)),
+                dl(7), call(dl(8), call(dl(9), call(dl(10)))), dl(11))
+    thr3 = Prog(dl(1), E(Bin("catch", Un("try", Code(dl(2), call(dl(3), call(dl(4), E(Un("throw", N(1))), dl(5)), dl(6)), dl(7))), Code(E(Un("diag_log", Var("_exception")))))),
+                dl(8), call(dl(9), call(dl(10), call(dl(11)))), dl(12))
+    thr2 = Prog(dl(1), call(dl(2), E(Bin("catch", Un("try", Code(call(dl(3), E(Un("throw", N(7))), dl(4)), dl(5))), Code(dl(6)))), dl(7)), dl(8), call(dl(9), call(dl(10))), dl(11))
+    bo1 = Prog(dl(1), call(E(Un("scopeName", S("a"))), dl(2), E(Un("breakOut", S("a"))), dl(3)), dl(4), call(dl(5)), dl(6))
+    exw = Prog(dl(1), call(dl(2), E(Bin("exitWith", Un("if", B(True)), Code(dl(3)))), dl(4)), dl(5), call(dl(6)), dl(7))
+    return [("unwind-breakout-3", bo3, [], False), ("unwind-breakout-2", bo2, [], False), ("unwind-breakout-from-if", boif, [], False),
+            ("unwind-throw-3", thr3, [], False), ("unwind-throw-2", thr2, [], False), ("unwind-breakout-1", bo1, [], False), ("unwind-exitwith", exw, [], False)]
 
 
 def multiline(text, breaks):
@@ -153,6 +173,8 @@ def main(replay=None):
     crossings = {"line steps that ended at a file boundary between equal line numbers": 0}
 
     # ------------------------------------------------------------- sequential: exhaustive action trees
+    unwind_dist = {}
+    unwind_impl = {}
     trees = []     # (base, script name, depth)
     paths = []     # single action sequences (corpus, replay): (base, script name, actions)
     raw_trees = [] # implementation only, judged by the state-machine table: (base, text, depth)
@@ -177,6 +199,14 @@ def main(replay=None):
         for nm in ("nested", "loop", "handled", "oneline"):
             trees += [("L", nm, side + (1 if thorough else 0))]
         trees += [("L", "bad1", side + 1), ("X", "handled", side), ("F", "nested", side)]
+        # stepped INTO nested scopes by k assembly steps, then leave_scope (and on: step, leave_scope again, run to the end)
+        unw = [nm for nm, _, _, _ in unwinding_scripts() if nm in usable]
+        rc, lens, _ = V.run_lines([drv, "ctl-seq"], ["repaired\tL\t%s\t%s\t%s" % (texts[nm][0], diag[nm], "p" * 150) for nm in unw])
+        for nm, ln in zip(unw, lens):
+            nsteps = next((i for i, o in enumerate(ln.split(";")[1:]) if o.startswith("-1:")), 150)
+            unwind_dist["leave_scope after k steps into %s" % nm] = nsteps + 1
+            for k in range(nsteps + 1):
+                paths.append(("L", nm, "p" * k + "vpvs"))
         for nm in flat:
             trees += [("L", nm, 7), ("L", nm, 3 + (1 if thorough else 0)), ("F", nm, 2)]
             alpha_of[("L", nm, 7)] = "lp"
@@ -198,9 +228,15 @@ def main(replay=None):
         f = line.split(";")
         return ";".join([f[0]] + ["%s=%s" % (actions[:k + 1], o) for k, o in enumerate(f[1:])])
     if paths:
-        rc, pi, _ = V.run_lines([hctl, "seq"], ["%s\t%s\t%s" % (b, field[nm], a) for b, nm, a in paths])
-        rc, pm, _ = V.run_lines([drv, "ctl-seq"], ["repaired\t%s\t%s\t%s\t%s" % (b, texts[nm][0], diag[nm], a) for b, nm, a in paths])
-        rc, pa, _ = V.run_lines([drv, "ctl-seq"], ["asis\t%s\t%s\t%s\t%s" % (b, texts[nm][0], diag[nm], a) for b, nm, a in paths])
+        rc, pi, _ = V.run_lines_parallel([hctl, "seq"], ["%s\t%s\t%s" % (b, field[nm], a) for b, nm, a in paths], timeout=3000)
+        rc, pm, _ = V.run_lines_parallel([drv, "ctl-seq"], ["repaired\t%s\t%s\t%s\t%s" % (b, texts[nm][0], diag[nm], a) for b, nm, a in paths], timeout=3000)
+        rc, pa, _ = V.run_lines_parallel([drv, "ctl-seq"], ["asis\t%s\t%s\t%s\t%s" % (b, texts[nm][0], diag[nm], a) for b, nm, a in paths], timeout=3000)
+        # implementation-only oracle for leave_scope inside nested scopes: the steps of the same run, one by one
+        for (b_, nm_, a_), x in zip(paths, pi):
+            if nm_.startswith("unwind-") and b_ == "L":
+                base_, nodes_ = parse_tree(as_nodes(x, a_))
+                d_ = unwind_impl.setdefault(nm_, {"": base_})
+                d_.update(nodes_)
         # corpus / replay cases are judged first
         trees = [(b, nm, len(a)) for b, nm, a in paths] + trees
         impl = [as_nodes(x, a) for (b, nm, a), x in zip(paths, pi)] + impl
@@ -215,7 +251,7 @@ def main(replay=None):
     evaluations, nontrivial = 0, set()
     seen_kinds = {}
     samples = []
-    dist = {}
+    dist = dict(unwind_dist)
 
     def report(kind, what, rep, found=True):
         # one replay per kind of discrepancy and tree is enough to show it; count the rest
@@ -223,6 +259,42 @@ def main(replay=None):
         seen_kinds[key] = seen_kinds.get(key, 0) + 1
         if seen_kinds[key] == 1:
             run.violation(what, rep, found_input=found)
+
+    # leave_scope issued k instructions into the script must end exactly where stepping on instruction by instruction first leaves the
+    # scope that was current (frame count below the count at the time of the request) or ends the script: nothing behind that point
+    # may have executed.  Both sides are observations of the implementation.
+    def nframes(fd):
+        if fd is None or fd["nctx"] == 0:
+            return 0
+        fr = fd["rest"].split(":", 2)[2] if fd["rest"].count(":") >= 2 else ""
+        return len([x for x in fr.split(",") if x])
+    unwind_checked = 0
+    for nm_, nodes_ in sorted(unwind_impl.items()):
+        k = 0
+        while "p" * (k + 1) in nodes_:
+            k += 1
+        trace = [nodes_["p" * j] for j in range(k + 1)]
+        for j0 in range(k + 1):
+            got = nodes_.get("p" * j0 + "v")
+            f0 = fields(trace[j0])
+            if got is None or f0 is None or (j0 > 0 and f0["res"] != 0):
+                continue
+            want = None
+            for j in range(j0 + 1, k + 1):
+                fj = fields(trace[j])
+                if fj is None or fj["res"] != 0 or nframes(fj) < max(nframes(f0), 1):
+                    want = trace[j]; wj = j
+                    break
+            if want is None:
+                continue
+            unwind_checked += 1
+            if got != want:
+                report("leave", "leave_scope issued %d instruction(s) into the script does not end where the scope that was current is first left: it gives %s, "
+                       "stepping on instruction by instruction leaves that scope (or ends the script) after instruction %d with %s - instructions behind that "
+                       "point were executed, or the step stopped short" % (j0, got, wj, want),
+                       {"kind": "seq", "base": "L", "script_name": nm_, "script": texts[nm_][1], "actions": "p" * j0 + "v", "impl": got,
+                        "impl_by_single_steps": want, "steps_to_leave": wj - j0})
+    dist["leave_scope vs single steps (implementation only)"] = unwind_checked
 
     for (b, t, d), il_ in zip(raw_trees, raw_impl):
         ibase, inodes = parse_tree(il_)
